@@ -111,6 +111,9 @@ class C01(engine.Property):
         cfg = common.std_struct_config(rng, kinds=KINDS, always=("mk_edge",))
         cfg["p_bad"] = rng.choice([0.0, 0.05])
         cfg["raising_iterables"] = rng.random() < 0.4
+        if rng.random() < 0.15:
+            # a link class with value equality (== duplicates are allowed as distinct links)
+            cfg["edge_classes"] = sorted(set(cfg["edge_classes"]) | {"BondEdge"})
         if rng.random() < 0.12:
             # a vertex subclass whose remove_from_link override calls back into the library
             cfg["vertex_classes"] = ["Vertex", "HandoverVertex"]
